@@ -238,7 +238,7 @@ func c17(c *Ctx) {
 		{
 			info := sess.Info()
 			g := c.Graph(sess)
-			isGetAuth := func(fn *types.Func, _ *ast.CallExpr) bool { return fn.Name() == "GetAuth" }
+			isGetAuth := func(fn *types.Func, _ *ast.CallExpr) bool { return fname(fn) == "GetAuth" }
 			for _, call := range callsIn(sess, isGetAuth) {
 				v := g.VertexOf(call)
 				as, ok := g.V[v].Node.(*ast.AssignStmt)
@@ -467,7 +467,7 @@ func c17(c *Ctx) {
 			if !ok || len(kc.Args) != 1 {
 				return false
 			}
-			if fn := astx.Callee(info, kc); fn == nil || fn.Name() != "NickToLower" {
+			if fn := astx.Callee(info, kc); fn == nil || fname(fn) != "NickToLower" {
 				return false
 			}
 			ks, ok := ast.Unparen(kc.Args[0]).(*ast.SelectorExpr)
@@ -507,7 +507,7 @@ func c17(c *Ctx) {
 				}
 				if es, ok := st.(*ast.ExprStmt); ok {
 					if call, ok := es.X.(*ast.CallExpr); ok {
-						if fn := astx.Callee(info, call); fn != nil && fn.Name() == "maybeDeleteChannelLocked" {
+						if fn := astx.Callee(info, call); fn != nil && fname(fn) == "maybeDeleteChannelLocked" {
 							okMaybe = true
 						}
 					}
@@ -645,7 +645,7 @@ func c17(c *Ctx) {
 				continue
 			}
 			dv := g.VertexOf(dc)
-			for _, sc := range callsIn(fi, func(fn *types.Func, _ *ast.CallExpr) bool { return fn.Name() == "sendUser" }) {
+			for _, sc := range callsIn(fi, func(fn *types.Func, _ *ast.CallExpr) bool { return fname(fn) == "sendUser" }) {
 				if len(sc.Args) < 3 || !astx.Same(info, sc.Args[0], dc.Args[0]) {
 					continue
 				}
